@@ -457,18 +457,32 @@ package value
 //@   loop 1 invariant (cap(mainList) == 0 || fresh(mainList)) && validStack(st)
 //@   loop 2 invariant (cap(mainList) == 0 || fresh(mainList)) && validStack(st)
 
-// Iteration with a callback: range-over-func / yield protocols are outside the verified subset. ASSUMED frame: Iter
-// itself writes nothing; what the callback writes is what the function literal passed by the caller writes (in the
-// callers below: only local variables of the caller, by reading).
+// Iteration with a callback. ASSUMED protocol of every MapStorage.Iter (implementations are range-over-func / yield
+// code outside the verified subset, so `no-impl-check`): yield is called once for every key of the view, in some order
+// mkeyAt(m, 0), mkeyAt(m, 1), ... that enumerates the view without repetition, with the value of the view, and
+// iteration stops when yield returns false. A function literal passed to Iter is verified as the body of that
+// iteration (callback clauses of the caller); without such clauses the call is treated as of unknown effect.
+//@ ghost func mkeyAt(m MapStorage, i int) string
+//@ axiom enum_present: forall m MapStorage, i int :: 0 <= i && i < mcard(m) ==> mhas(m, mkeyAt(m, i))
+//@ ghost func mindex(m MapStorage, k string) int
+//@ axiom enum_complete: forall m MapStorage, k string :: mhas(m, k) ==> 0 <= mindex(m, k) && mindex(m, k) < mcard(m) && mkeyAt(m, mindex(m, k)) == k
 //@ interface-contract MapStorage.Iter
 //@   option no-impl-check
+//@   iterates yield count mcard(self) args mkeyAt(self, cbidx), mget(self, mkeyAt(self, cbidx))
+//@   assigns nothing
+//@ func (v Map) Iter
+//@   trusted
+//@   iterates yield count mcard(v.m) args mkeyAt(v.m, cbidx), mget(v.m, mkeyAt(v.m, cbidx))
 //@   assigns nothing
 
 // '+' on maps builds a view on both operands and writes nothing that existed before
 //@ func (v Map) Merge
 //@   property C09, C13
 //@   ensures[wrapper] result1 == nil ==> typeis(result0.m, MergeMap)
+//@   ensures[disjoint-or-error] result1 == nil ==> (forall k string :: !(mhas(v.m, k) && mhas(other.m, k)))
 //@   assigns nothing
+//@   callback "other.Iter(func" invariant !found && (forall i in 0..cbidx :: !mhas(v.m, mkeyAt(other.m, i)))
+//@   callback "other.Iter(func" stopped found
 
 // ---------------------------------------------------------------- C07: built-ins with their own loops
 //@ func (s String) Cut
